@@ -39,14 +39,24 @@ ASSUMPTIONS = ["virtual time: one poll of the product's hook (100 000 VM instruc
 WALL = {"quick": 900, "thorough": 5400}
 B = 3
 MONITOR_TICKS_MAX = 20
+# a nested invocation costs well over 1000 VM instructions; the product's hook polls the clock every 100 000:
+# thousands of nested invocations inside one outer invocation without a single poll mean the limit is not counting
+NESTED_WITHOUT_POLL_MAX = 4000
 
 BENIGN = r'''local e = {}
 function e.sum(f) local s = 0 for i = 1, 400000 do s = s + i % 7 end return "sum=" .. s end
 function e.echo(f) return "echo[" .. (f.args[1] or "") .. "]" end
 function e.lib(f) return mw.text.trim("  x  ") .. string.upper("ab") .. #mw.text.split("a,b,c", ",") end
 function e.pre(f) return f:preprocess("{{#invoke:b|echo|in}}") end
+-- module-level state: every top-level invocation starts from a freshly loaded module, so this always answers 1
+local calls = 0
+counter_global = (counter_global or 0)
+function e.count(f) calls = calls + 1 counter_global = counter_global + 1 return "count=" .. calls .. "/" .. counter_global end
 return e'''
-BENIGN_CALLS = ["{{#invoke:b|sum}}", "{{#invoke:b|echo|q}}", "{{#invoke:b|lib}}", "{{#invoke:b|pre}}", "{{tb}}"]
+BENIGN_CALLS = ["{{#invoke:b|sum}}", "{{#invoke:b|echo|q}}", "{{#invoke:b|lib}}", "{{#invoke:b|pre}}", "{{tb}}", "{{#invoke:b|count}}"]
+# invocations that fail in other ways than by timing out; run between the program and the follow-ups
+DISTURBANCES = ["{{#invoke:nomodule|f}}", "{{#invoke:b|nofunction}}", "{{#invoke:notable|f}}", "{{#invoke:loaderr|f}}", "{{#invoke:b}}",
+                "{{#invoke:b|pre}}{{#invoke:nomodule|f}}"]
 
 BODIES = {
     "while-true": ("local i = 0 while true do i = i + 1 end", False),
@@ -62,6 +72,11 @@ BODIES = {
     "in-loaddata": ("local d = mw.loadData('Module:spindata') return d.x", True),
     "metamethod": ("local t = setmetatable({}, {__index = function(t, k) while true do end end}) return t.x", False),
     "gsub-callback": ("return (string.gsub('abc', '.', function(c) while true do end end))", False),
+    # loops whose every iteration makes a nested invocation (each one passes through the timeout arming code)
+    "loop-of-nested-invokes": ("while true do frame:preprocess('{{#invoke:b|echo|x}}') end", False),
+    "loop-of-expandTemplate": ("while true do frame:expandTemplate{title = 'tb', args = {'y'}} end", False),
+    "loop-of-callParserFunction": ("while true do frame:callParserFunction('#invoke', 'b', 'echo', 'z') frame:callParserFunction('lc', 'A') end", False),
+    "loop-of-nested-invokes-pcall": ("while true do pcall(frame.preprocess, frame, '{{#invoke:b|echo|x}}{{#invoke:b|lib}}') end", False),
 }
 WRAPPERS = ["none", "pcall", "xpcall", "pcall-outer-loop", "nested-pcall", "swallow-loop", "preprocess-nested-loop",
             "nested-benign-then-loop", "expandTemplate-loop", "set-timeout-call", "clear-hook-call", "load-time-loop"]
@@ -70,7 +85,7 @@ WRAPPERS = ["none", "pcall", "xpcall", "pcall-outer-loop", "nested-pcall", "swal
 def floors(tier):
     return {"oracle.R1-aborted-within-B-polls": 60, "oracle.R3-timeout-element": 60, "oracle.followup==fresh": 100,
             "sets.body-wrapper-pairs": 60, "counters.hook.arm": 100, "counters.polls": 500, "counters.invocation-depth>=2": 10,
-            "counters.followups-after-time-jump": 20}
+            "counters.followups-after-time-jump": 20, "counters.disturbances": 50}
 
 
 def shards(tier, seed):
@@ -128,7 +143,8 @@ class Parent:
         self.cm = fresh(lua=True, pages=[
             ("Module:b", 828, BENIGN), ("Template:tb", 10, "T[{{{1|d}}}]"),
             ("Module:spinlib", 828, "local m = {}\nfunction m.spin() while true do end end\nreturn m"),
-            ("Module:spindata", 828, "local i = 0 while true do i = i + 1 end return {x = 1}")])
+            ("Module:spindata", 828, "local i = 0 while true do i = i + 1 end return {x = 1}"),
+            ("Module:notable", 828, "return nil"), ("Module:loaderr", 828, "error('load boom')")])
         self.ctx = self.cm.__enter__()
         self.ctx.db_conn.commit()
         self.ctx.start_page("Pg")
@@ -139,6 +155,8 @@ class Parent:
         self.depth = 0
         self.maxdepth = 0
         self.on_enter = None
+        self.on_runaway = None
+        self.nested_since_poll = 0
         import wikitextprocessor.luaexec as lx
         anchors.watch({"luaexec.call_lua_sandbox": lx.call_lua_sandbox, "luaexec.make_frame": (lx.call_lua_sandbox, "make_frame"),
                        "core.Wtp.expand": core.Wtp.expand, "core.Wtp.start_page": core.Wtp.start_page})
@@ -150,6 +168,9 @@ class Parent:
             me.maxdepth = max(me.maxdepth, me.depth)
             if me.depth == 1 and me.on_enter is not None:
                 me.on_enter()
+            me.nested_since_poll += 1
+            if me.nested_since_poll > NESTED_WITHOUT_POLL_MAX and me.on_runaway is not None:
+                me.on_runaway()
             try:
                 return orig(ctx, invoke_args, expander, parent, timeout)
             finally:
@@ -182,6 +203,7 @@ def child_run(par, prog, limit, followups, jump, wfd):
         v = real_time(*a)
         if a and a[0] is not None:
             return v
+        par.nested_since_poll = 0
         if state["start"] is None or (clock.events and clock.events[-1][0] == "arm" and clock.events[-1][1] == clock.polls - 1):
             # first poll after an arm = the start_time taken by _lua_set_timeout
             if state["start"] is None or state["rearm_restarts"]:
@@ -235,6 +257,12 @@ def child_run(par, prog, limit, followups, jump, wfd):
             real_sethook(par.lua_fn(monitor_tick), "", 100000)
     par.on_enter = on_enter
 
+    def on_runaway():
+        rep["violations"].append(["R2:%d-nested-invocations-without-one-poll-of-the-time-limit" % NESTED_WITHOUT_POLL_MAX,
+                                  "events=%r polls=%d" % (clock.events[-6:], clock.polls)])
+        finish(5)
+    par.on_runaway = on_runaway
+
     # wall-clock watchdog of the child itself: inconclusive, never a violation
     signal.signal(signal.SIGALRM, lambda *_: (rep.__setitem__("watchdog", True), finish(9)))
     signal.alarm(120)
@@ -259,6 +287,20 @@ def child_run(par, prog, limit, followups, jump, wfd):
     rep["hook_armed_after_return"] = clock.armed
     rep["stacks_restored"] = (list(ctx.expand_stack), len(ctx.lua_env_stack), len(ctx.lua_frame_stack)) == before
     rep["messages"] = [(m["msg"][:120] + " || " + m["trace"][-700:]) for m in ctx.errors][:3]
+    # other kinds of failing invocations (they must leave the context as usable as a timeout does)
+    rep["disturbances"] = []
+    for dtext in prog.get("disturb", []):
+        state["start"] = None
+        state["deadline_poll"] = None
+        state["limit"] = 60 if limit is None else limit
+        state["arms"] = 0
+        state["rearm_restarts"] = False
+        b4 = (list(ctx.expand_stack), len(ctx.lua_env_stack), len(ctx.lua_frame_stack))
+        try:
+            dr = ctx.expand(dtext, timeout=limit)
+        except BaseException as e:  # noqa
+            dr = "EXC %s: %s" % (type(e).__name__, str(e)[:200])
+        rep["disturbances"].append([dtext, dr[:200], (list(ctx.expand_stack), len(ctx.lua_env_stack), len(ctx.lua_frame_stack)) == b4])
     # usability: benign follow-ups on the same context (a stale armed hook must not fire in them)
     if jump:
         clock.advance(120)
@@ -339,6 +381,11 @@ def judge(par, prog, rep, limit, followups):
         probs.append(("R3:no-timeout-element/wrapper=" + prog["wrapper"], "result=%r program=%s" % (out[:200], tag)))
     if not rep.get("stacks_restored", True):
         probs.append(("stacks-not-restored-after-invoke/wrapper=" + prog["wrapper"], tag))
+    for dtext, dr, restored in rep.get("disturbances", []):
+        if dr.startswith("EXC "):
+            probs.append(("failing-invocation-raised-out-of-expand", "%s -> %s" % (dtext, dr)))
+        if not restored:
+            probs.append(("stacks-not-restored-after-failing-invocation", "%s (expand_stack / lua_env_stack / lua_frame_stack)" % dtext))
     for c, r in rep.get("followups", []):
         if r != par.expected[c]:
             kind = "raises" if r.startswith("EXC ") else ("timeout-element" if "Lua timeout error" in r else "other")
@@ -360,14 +407,23 @@ def run_shard(spec):
     for i in range(spec["n"]):
         b, w = mine[i] if i < len(mine) else rng.choice(combos)
         limit = rng.choice([0.5, 1, 2, 2, None]) if i % 5 else 1
+        if b.startswith("loop-of"):
+            # every iteration goes through Python (nested expand): keep the virtual limit short, and the body needs a
+            # frame, so it cannot run while the module is being loaded
+            limit = rng.choice([0.5, 1, 1, 2])
+            if w == "load-time-loop":
+                w = "none"
         pages, call, may_error = program(b, w, spec["seed"] * 100000 + i)
-        prog = {"body": b, "wrapper": w, "pages": pages, "call": call, "may_error": may_error}
-        fu = [rng.choice(BENIGN_CALLS) for _ in range(rng.randint(1, 5))]
+        prog = {"body": b, "wrapper": w, "pages": pages, "call": call, "may_error": may_error,
+                "disturb": [rng.choice(DISTURBANCES) for _ in range(rng.randint(0, 2))]}
+        fu = [rng.choice(BENIGN_CALLS) for _ in range(rng.randint(1, 5))] + ["{{#invoke:b|count}}"]
         if "{{#invoke:b|sum}}" not in fu:
             fu.append("{{#invoke:b|sum}}")       # > 100 000 instructions: a stale deadline can fire here
         jump = rng.random() < 0.5
         rep = run_program(par, prog, limit, fu, jump)
-        case = {"body": b, "wrapper": w, "limit": limit, "followups": fu, "jump": jump, "n": spec["seed"] * 100000 + i}
+        case = {"body": b, "wrapper": w, "limit": limit, "followups": fu, "jump": jump, "n": spec["seed"] * 100000 + i,
+                "disturb": prog["disturb"]}
+        obs.count("disturbances", len(prog["disturb"]))
         if "harness" in rep:
             obs.inconclusive.append("program %s/%s: %s" % (b, w, rep["harness"]))
             continue
@@ -407,7 +463,8 @@ def run_shard(spec):
 def replay(case):
     par = Parent()
     pages, call, may_error = program(case["body"], case["wrapper"], case["n"])
-    prog = {"body": case["body"], "wrapper": case["wrapper"], "pages": pages, "call": call, "may_error": may_error}
+    prog = {"body": case["body"], "wrapper": case["wrapper"], "pages": pages, "call": call, "may_error": may_error,
+            "disturb": case.get("disturb", [])}
     rep = run_program(par, prog, case["limit"], case["followups"], case["jump"])
     probs, how = judge(par, prog, rep, case["limit"], case["followups"]) if "harness" not in rep else ([], "harness")
     par.close()
